@@ -19,6 +19,17 @@ HESSDIAG_WORST = {('central', 2): 2.1e-7, ('central', 4): 8.6e-11, ('central', 6
                   ('forward', 2): 1.1e-6, ('forward', 4): 3.6e-9, ('forward', 6): 3.1e-10,
                   ('backward', 2): 9.6e-7, ('backward', 4): 4.5e-9, ('backward', 6): 3.9e-10}
 
+# worst |Hessdiag - diag Q| / scale for quadratic f on the unchanged tree with MinStepGenerator(step_ratio=2) ('min2') and
+# MinStepGenerator(base_step=0.01, step_ratio=2) ('min2b'), 9600 cases; the envelope is 30 x these
+QUAD_WORST = {('backward', 2, 'min2'): 3.6e-07, ('backward', 2, 'min2b'): 2.0e-11, ('backward', 4, 'min2'): 8.7e-10,
+              ('backward', 4, 'min2b'): 3.2e-11, ('backward', 6, 'min2'): 3.6e-11, ('backward', 6, 'min2b'): 3.6e-11,
+              ('central', 2, 'min2'): 2.3e-07, ('central', 2, 'min2b'): 1.3e-11, ('central', 4, 'min2'): 6.5e-11,
+              ('central', 4, 'min2b'): 1.7e-11, ('central', 6, 'min2'): 2.8e-12, ('central', 6, 'min2b'): 1.8e-11,
+              ('central2', 2, 'min2'): 1.7e-07, ('central2', 2, 'min2b'): 1.2e-11, ('complex', 2, 'min2'): 4.9e-13,
+              ('complex', 2, 'min2b'): 2.4e-14, ('forward', 2, 'min2'): 4.4e-07, ('forward', 2, 'min2b'): 3.4e-11,
+              ('forward', 4, 'min2'): 9.1e-10, ('forward', 4, 'min2b'): 5.3e-11, ('forward', 6, 'min2'): 4.6e-11,
+              ('forward', 6, 'min2b'): 6.0e-11, ('multicomplex', 2, 'min2'): 1.0e-15, ('multicomplex', 2, 'min2b'): 1.0e-15}
+
 
 def run(ctx):
     import numdifftools as nd
@@ -200,6 +211,37 @@ def run(ctx):
                               envelope=100 * HESSDIAG_WORST[(meth, order)], a=a.tolist(), b=b.tolist(), Q=Q.tolist(), hessdiag=hd.tolist(),
                               exact=np.diag(exact).tolist())
                 break
+    # ---- quadratics through Hessdiag with small user steps of ratio exactly 2 (every supported order is exact on a quadratic, so what
+    # remains is rounding: eps |f| / h^2 and the accuracy of the rule's cancellation of the f' h term)
+    worst_q = 0.0
+    for it in range(ctx.budget(60, 600)):
+        n = rng.randint(1, 6)
+        meth = rng.choice(['central', 'forward', 'backward', 'forward', 'backward', 'central2', 'complex', 'multicomplex'])
+        x = np.array([rng.uniform(-1.5, 1.5) for _ in range(n)])
+        Q = np.array([[rng.randint(-8, 8) / 4 for _ in range(n)] for _ in range(n)])
+        Q = (Q + Q.T) / 2
+        g = np.array([rng.randint(-8, 8) / 4 for _ in range(n)])
+        f = lambda t: 1.5 + np.dot(g, t) + 0.5 * np.dot(t, Q @ t)
+        scale = 1 + np.abs(Q).max() + np.abs(g).max()
+        order = rng.choice([2, 4, 6]) if meth in ('central', 'forward', 'backward') else 2
+        gk = rng.choice(['min2', 'min2b'])
+        gen = MinStepGenerator(step_ratio=2.0) if gk == 'min2' else MinStepGenerator(base_step=0.01, step_ratio=2.0)
+        ctx.tried(('hessdiag-quadratic', n, meth, order, gk, tuple(x[:2])))
+        try:
+            with warnings.catch_warnings():
+                warnings.simplefilter('ignore')
+                hd = nd.Hessdiag(f, method=meth, order=order, step=gen)(x)
+        except Exception as ex:
+            ctx.violation('Hessdiag of a quadratic raised %r' % ex, order=order, method=meth, n=n, x=x.tolist())
+            continue
+        e = float(np.max(np.abs(hd - np.diag(Q)))) / scale
+        env = 30 * max(QUAD_WORST[(meth, order, gk)], 1e-14)
+        worst_q = max(worst_q, e / env)
+        if e > env:
+            ctx.violation('Hessdiag of a quadratic (user MinStepGenerator with step ratio 2) is outside the rounding envelope of its order',
+                          order=order, method=meth, n=n, x=x.tolist(), generator=gk, error_over_scale=e, envelope=env, g=g.tolist(), Q=Q.tolist(),
+                          hessdiag=hd.tolist())
+    ctx.notes.append('Hessdiag of quadratics with ratio-2 user steps: worst error / envelope = %.3g' % worst_q)
     if worst_hd:
         ctx.notes.append('Hessdiag with a shared MinStepGenerator: worst error / calibrated worst = %.3g (envelope 100)' % max(worst_hd.values()))
     ctx.notes.append('few-step complex / bicomplex Hessians: worst error / scale = %.3g (bound 1e-9)' % worst_few)
